@@ -1,5 +1,6 @@
 import QipVerif.Util.Proto
 import QipVerif.Model.Sim
+import QipVerif.Model.SimObj
 /-! Driver for the simulator / world model (C02, C16), exact backend.
 
 Request (one line):
@@ -135,17 +136,96 @@ def execCall (cfg : Cfg) (mode : Mode) (c : Circuit) (inits : List Exact.QS) (ph
   | _, .nothing => (w', "Q")
   | _, .program tok => (w', "C" ++ showTok tok)
 
+def parseCfg (s : String) : Option Cfg :=
+  match s.toList with
+  | [a, b, c, d, e, f, g, h] =>
+    some { copyCbits := a == '1', checkCcv := b == '1', resetPhase := c == '1', pureGetter := d == '1',
+           dmRefuse := e == '1', copyRev := f == '1', copyChain := g == '1', noiseLocal := h == '1' }
+  | _ => none
+
+/-- `N` | `s<v>` | `l<a,b,N,…>` (`le` = empty list) -/
+def parseTVal (s : String) : Option TVal :=
+  match s.toList with
+  | ['N'] => some .none
+  | 's' :: rest => (String.toInt? (String.ofList rest)).map TVal.scalar
+  | ['l', 'e'] => some (.list [])
+  | 'l' :: rest =>
+    ((splitNE (String.ofList rest) ",").mapM fun x =>
+      if x = "N" then some (none : Option Int) else (String.toInt? x).map some).map TVal.list
+  | _ => none
+
+def showOptList (l : List (Option Int)) : String :=
+  if l.isEmpty then "e" else ",".intercalate (l.map fun | none => "N" | some v => toString v)
+
+def showTVal : TVal → String
+  | .none => "N"
+  | .scalar v => s!"s{v}"
+  | .list l => "l" ++ showOptList l
+
+/-- `noise cfg=… t1=<tv> t2=<tv> uses=<N,N,…>`: per use `ok <l1>|<l2>` or `err value`, then the object `@<t1>;<t2>` -/
+def noiseCmd (fs : List String) : Option String := do
+  let cfg ← (fStr? fs "cfg").bind parseCfg
+  let t1 ← (fStr? fs "t1").bind parseTVal
+  let t2 ← (fStr? fs "t2").bind parseTVal
+  let uses ← fNats? fs "uses"
+  let (_, outs) := uses.foldl (fun (acc : RelaxObj × List String) n =>
+      let r := relaxUse cfg acc.1 n
+      let o := match r.2 with
+        | .ok (l1, l2) => s!"ok {showOptList l1}|{showOptList l2}"
+        | .error e => "err " ++ errName e
+      (r.1, acc.2 ++ [o ++ s!" @{showTVal r.1.t1};{showTVal r.1.t2}"])) (⟨t1, t2⟩, [])
+  pure (" ; ".intercalate outs)
+
+/-- `deco cfg=… coeff=<N|v> tln=<0|1> uses=<k>`: per use `<coeff used> @<coeff attribute>` -/
+def decoCmd (fs : List String) : Option String := do
+  let cfg ← (fStr? fs "cfg").bind parseCfg
+  let c ← (fStr? fs "coeff").bind optInt?
+  let tln ← fNat? fs "tln"
+  let k ← fNat? fs "uses"
+  let sh : Option Int → String := fun | none => "N" | some v => toString v
+  let (_, outs) := (List.range k).foldl (fun (acc : DecoObj × List String) _ =>
+      let r := decoUse cfg acc.1
+      (r.1, acc.2 ++ [s!"{sh r.2} @{sh r.1.coeff}"])) (⟨c, tln != 0⟩, [])
+  pure (" ; ".intercalate outs)
+
+/-- `share cfg=… kind=rev|chain|copy ctrl=<0|1,…> plan=<k0,l2,f,…|N>`: the argument has one gate object per entry of
+`ctrl` (1 = it has a controls list), each with lists of its own; answer per gate of the result: `o<i>` the argument's
+gate object `i` itself, `t<i>` a new object holding the targets list of gate `i`, `n` nothing shared -/
+def shareCmd (fs : List String) : Option String := do
+  let cfg ← (fStr? fs "cfg").bind parseCfg
+  let kind ← fStr? fs "kind"
+  let ctrl ← fNats? fs "ctrl"
+  let planS ← fStr? fs "plan"
+  let k := ctrl.length
+  let w : OWorld :=
+    { lists := ⟨(List.range k).flatMap fun i => [[Int.ofNat i], [Int.ofNat (i + 100)]]⟩,
+      gates := (List.range k).map fun i => ⟨i, 2 * i, if ctrl.getD i 0 != 0 then some (2 * i + 1) else none⟩ }
+  let arg : Circ := List.range k
+  let plan ← if planS = "N" then some [] else (planS.splitOn ",").mapM fun x =>
+    match x.toList with
+    | ['f'] => some (Item.fresh 0 [0] none)
+    | 'k' :: rest => (String.toNat? (String.ofList rest)).map Item.keep
+    | 'l' :: rest => (String.toNat? (String.ofList rest)).map (fun i => Item.relist i 0)
+    | _ => none
+  let r ← match kind with
+    | "rev" => some (reverseCircuit cfg w arg)
+    | "chain" => some (toChain cfg w arg plan)
+    | "copy" => some (resolveLike w arg plan)
+    | _ => none
+  let sig := r.2.map fun ref =>
+    if ref < k then s!"o{ref}" else
+      match r.1.gate? ref with
+      | some g => if g.targets < 2 * k then s!"t{g.targets / 2}" else "n"
+      | none => "?"
+  pure ("ok " ++ ",".intercalate sig)
+
 def parseLists (s : String) : Option (List (List Int)) :=
   if s = "N" then some [] else
     (s.splitOn ";").mapM fun l => if l = "e" then some [] else intList? l
 
 def hist (fs : List String) : Option String := do
   let cfgs ← fStr? fs "cfg"
-  let cfg : Cfg ← match cfgs.toList with
-    | [a, b, c, d, e, f, g, h] =>
-      some { copyCbits := a == '1', checkCcv := b == '1', resetPhase := c == '1', pureGetter := d == '1',
-             dmRefuse := e == '1', copyRev := f == '1', copyChain := g == '1', noiseLocal := h == '1' }
-    | _ => none
+  let cfg ← parseCfg cfgs
   let mode ← match fStr? fs "mode" with
     | some "sv" => some Mode.sv | some "dm" => some Mode.dm | _ => none
   let n ← fNat? fs "n"
@@ -178,6 +258,9 @@ def step (line : String) : String :=
   let fs := fields line
   match fs.head? with
   | some "hist" => (hist fs).getD "bad-op"
+  | some "noise" => (noiseCmd fs).getD "bad-op"
+  | some "deco" => (decoCmd fs).getD "bad-op"
+  | some "share" => (shareCmd fs).getD "bad-op"
   | some "ccv" =>
     match (fStr? fs "cs").bind optInts?, fInt? fs "v", (fStr? fs "bits").bind optInts? with
     | some (some cs), some v, some bits =>
